@@ -327,6 +327,38 @@ def axioms_of(module: str, theorems: List[str]) -> Dict[str, List[str]]:
     return res
 
 
+def gen_status_kept() -> Dict[str, str]:
+    """generated pieces whose source shape the translator did not recognise in this run (it kept the previous definition)"""
+    path = os.path.join(LEAN_DIR, "Pacti", "Gen", "STATUS.json")
+    try:
+        st = json.load(open(path))
+    except Exception:  # noqa
+        return {}
+    return {k: v[6:] for k, v in st.items() if isinstance(v, str) and v.startswith("kept: ")}
+
+
+def gen_pieces_used(modules: List[str]) -> List[str]:
+    """which generated pieces (Lists, Iface, Consts.<name>) the Lean modules behind `modules` mention"""
+    import re
+
+    used = set()
+    text = ""
+    for m in local_import_closure(modules):
+        if m.startswith("Pacti.Gen."):
+            if m in ("Pacti.Gen.Lists", "Pacti.Gen.Iface"):
+                used.add(m.split(".")[-1])
+            continue
+        text += open(os.path.join(LEAN_DIR, *m.split(".")) + ".lean").read()
+    try:
+        consts = re.findall(r"^def (\w+)", open(os.path.join(LEAN_DIR, "Pacti", "Gen", "Consts.lean")).read(), flags=re.M)
+    except OSError:
+        consts = []
+    for c in consts:
+        if re.search(r"\bGen\." + c + r"\b", text) or re.search(r"(?<![\w.])" + c + r"\b", text):
+            used.add("Consts." + c)
+    return sorted(used)
+
+
 def local_import_closure(modules: List[str]) -> List[str]:
     """the project's own modules (Pacti.*) that `modules` import, transitively, themselves included"""
     import re
